@@ -1,11 +1,12 @@
 """C14 — invalid input is rejected: guard / atomicity clauses (DESIGN.md section 3 / C14)."""
-from lib import labelvalid, a64common, core, precede, emitatomic, cfg
+from lib import labelvalid, a64common, core, precede, emitatomic, cfg, errreport
 
 
 def run(chk):
     rules = core.load_json("rules/c14.json")
     # C14.a
     labelvalid.run(chk, rules["label_valid_exceptions"])
+    labelvalid.run_bound_strict(chk)
     # C14.b (shared with C02.a)
     A = a64common.load(chk)
     a64common.rule_vbe(chk, A, "C14.b")
@@ -22,7 +23,7 @@ def run(chk):
     xemit = cfg.find_fn(fx, "x86::Assembler::_emit")
     st = emitatomic.analyse(chk, xemit, "asmjit/x86/x86assembler.cpp", RA, rules["emit_atomic_exceptions"])
     chk.floor(RA + ":x86-returns", st["returns"], 3)
-    chk.floor(RA + ":x86-commits", st["commit_calls"], 6)
+    chk.floor(RA + ":x86-commits", st["commit_calls"], 4)
     chk.floor(RA + ":x86-error-labels", st["error_labels"], 20)
     fb = chk.facts("asmjit/core/builder.cpp", funcs=r"asmjit::BaseBuilder::_emit$")
     bemit = cfg.find_fn(fb, "BaseBuilder::_emit")
@@ -30,6 +31,8 @@ def run(chk):
     chk.floor(RA + ":builder-returns", st["returns"], 4)
     # C14.c (part): the shared failure exit resets state before the handler can throw
     precede.run(chk, rules["must_precede"])
+    # C14.f every rejected input reaches the error handler
+    errreport.run(chk)
     return chk.finish(
         level="other",
         explanation=("Guard and atomicity rules over the emit paths of /repo's current source: label ids are validated on the "
